@@ -53,7 +53,8 @@ THEOREMS = [
     "PV.Prog.ifAssemble_spec",
     "PV.Prog.import_level_spec",
     "PV.Prog.annassign_simple_spec",
-    "PV.Prog.annassign_paren_name_simple",
+    "PV.Prog.annassign_paren_not_simple",
+    "PV.Prog.annassign_paren_name_not_simple",
     "PV.Prog.render_parse_partial",
 ]
 TRUSTED = [
@@ -108,7 +109,6 @@ PROBES = [
     ("softkw-head-nested-lambda-colon", "m", "match = lambda a=lambda: 1: 2\n"),
     ("softkw-head-other-colon", "m", "case = 1; x: int = 2\n"),
     ("identifier-not-nfkc", "m", "ﬁ = 1\n"),
-    ("annassign-parenthesised-name-simple", "m", "(x): int = 1\n"),
     ("subscript-single-starred-not-tuple", "m", "x[*a]\n"),
     ("match-subject-single-trailing-comma", "m", "match x,:\n case _: pass\n"),
     ("string-prefix-uppercase-u-kind", "m", "U'a'\n"),
@@ -204,10 +204,6 @@ def classify_diff(d):
                 return "identifier-not-nfkc"
         except ValueError:
             pass
-    if last == "simple" and x == "true" and y == "false" and d["pa"] and d["pa"][0] == "StmtAnnAssign":
-        tgt = dict(d["pa"][2])["target"]
-        if tgt[0] == "ExprName":
-            return "annassign-parenthesised-name-simple"
     if last == "kind" and not isinstance(x, (str, list)) and not isinstance(y, (str, list)):
         parent_field = path.rsplit(".", 2)[-2] if path.count(".") >= 2 else ""
         if x[0] == "ExprStarred" and y[0] == "ExprTuple" and parent_field == "slice":
@@ -599,6 +595,7 @@ def streams(ctx):
               "from . import x\n", "from .... import x\n", "global a, b\n", "nonlocal a\n", "assert a, b\n", "del a, (b, c), [d]\n",
               "raise A from B\n", "a[1:2, ::3, ...]\n", "a[b:=1]\n", "{**a, 'b': c}\n", "{*a, b}\n", "f(*a, k=1, *b, **c)\n",
               "x = not a is not b\n", "x = a if b else c if d else e\n", "x = a < b <= c != d\n", "x = -1 ** -2\n", "x = (yield)\n",
+              "(x): int = 1\n", "(x): int\n", "((x)): int = 1\n", "x: int = 1\n", "(x.y): int = 1\n", "if a: (x): int = 1\n", "pass; (x): int\n",   # repaired (annassign simple flag): regressions are violations
               "﻿x = 1\n", "x = 1\r\ny = 2\r\n", "x = 1\ry = 2\r", "if x:\n\ty\n", "x = \\\n  1\n", "", "\n", "# only a comment", "pass"]
     reqs += [refsweep.make_request("m", 1, s, None) for s in corpus]
     reqs += [refsweep.make_request("i", 1, s, None) for s in corpus[:40]]
